@@ -22,7 +22,7 @@
    SetCallbacks and "callback in process" just after never stores callbackWaitExit, so nobody finishes the
    close).  The window is two adjacent loads in Close(); the instrumented build cannot schedule inside it. *)
 From Coq Require Import List ZArith Lia Bool Arith.
-From Shm Require Import Gen.Consts Model.StreamState Proofs.StreamStateProofs.
+From Shm Require Import Gen.Consts Model.StreamState Proofs.StreamStateProofs Proofs.StreamStateClose Proofs.StreamStateResidue.
 Import ListNotations.
 Open Scope Z_scope.
 
@@ -99,33 +99,27 @@ Theorem C10_full : forall cb0 inb nc scr ups sy sched,
 Proof. exact full. Qed.
 Print Assumptions C10_full.
 
-(* what a close leaves behind.  pendingData is empty at closed quiescence, always; recvBuf is empty when no callbacks
-   are installed (the event loop's closed path recycles it).  WITH callbacks the full statement is REFUTED — a
-   regression of d5a1880 ("the event loop no longer recycles the read buffer of a closed stream while its callback
-   may still be reading it") that only the finer steps show: the table lookup of an arrival precedes the clean, its
-   add (a separate step: the pendingData mutex is in between) follows it; a goroutine that outlived close()'s Wait
-   (it was spawned between the CAS on callbackInProcess and wg.Add) moves it into recvBuf, and the event loop — which
-   used to sweep recvBuf in its closed path — now leaves recvBuf alone: the slices stay in recvBuf for ever. *)
-Definition C10_no_residue : Prop := no_residue_stmt.
-Theorem C10_no_residue_refuted : ~ C10_no_residue.
-Proof.
-  intros H.
-  specialize (H true [EData [1]; EData [2]] 1%nat [] [] []
-    ([WClo 0; WClo 0] ++ repeat WEv 5 ++ [WClo 0; WClo 0; WClo 0] ++ [WEv; WEv; WEv] ++ repeat (WClo 0) 5 ++ [WEv] ++
-     repeat (WGor 0) 8 ++ [WEv; WEv; WEv])).
-  vm_compute in H. assert (E : [2] = []); [|discriminate]. apply H; auto.
-  - intros [|[|i]] g Hg; simpl in Hg; try discriminate. inversion Hg; reflexivity.
-  - intros [|[|i]] c Hc; simpl in Hc; try discriminate. inversion Hc; auto.
-Qed.
-Print Assumptions C10_no_residue_refuted.
-Theorem C10_no_residue_partial : forall cb0 inb nc scr ups sy sched,
+(* nothing is left behind: at closed quiescence pendingData and recvBuf are empty and a read returns end-of-stream at
+   once — for every schedule over the fine steps (table lookup, add, walk, sweep …).  Formerly refuted
+   (C10_no_residue_refuted, signature "C10:late-arrival-moved-into-recvBuf-after-clean-is-never-recycled"): an arrival
+   whose table lookup preceded close()'s clean and whose add followed it was moved into recvBuf by a goroutine that
+   close()'s Wait had missed, and nothing recycled it.  Since the repair the callback goroutine, after its OnData loop
+   and before it clears callbackInProcess, sweeps pendingData and recvBuf if it finds the state closed. *)
+Theorem C10_no_residue : forall cb0 inb nc scr ups sy sched,
   let s := run sched (init_sy cb0 inb nc scr ups sy) in
-  st s = c_streamClosed -> epc s = EIdle ->
+  st s = c_streamClosed -> epc s = EIdle -> (spc s = SIdle \/ spc s = SDone) ->
   (forall i g, nth_error (gors s) i = Some g -> g = GExit) ->
   (forall i c, nth_error (clos s) i = Some c -> c = KRet \/ c = KStart) ->
-  pending s = [] /\ (cbset s = false -> recv s = [] /\ read_res s = REndOfStream).
-Proof. exact no_residue_partial. Qed.
-Print Assumptions C10_no_residue_partial.
+  pending s = [] /\ recv s = [] /\ read_res s = REndOfStream.
+Proof. exact no_residue. Qed.
+Print Assumptions C10_no_residue.
+(* the former witness schedule (the goroutine that outlived the clean now sweeps) *)
+Example C10_regress_late_arrival_residue :
+  let s := run ([WClo 0; WClo 0] ++ repeat WEv 5 ++ [WClo 0; WClo 0; WClo 0] ++ [WEv; WEv; WEv] ++ repeat (WClo 0) 5 ++ [WEv] ++
+                repeat (WGor 0) 12 ++ [WEv; WEv; WEv])
+               (init true [EData [1]; EData [2]] 1 [] []) in
+  st s = c_streamClosed /\ intable s = false /\ epc s = EIdle /\ gors s = [GExit] /\ pending s = [] /\ recv s = [].
+Proof. vm_compute. repeat split. Qed.
 
 (* both ends: a Close() on A reaches B — once B's event loop has drained its inbox B's stream has left
    `opened` (its Flush fails, its reads return the flushed data and then end-of-stream by C10_peer) *)
